@@ -65,10 +65,11 @@ type summarizer struct {
 	memo     map[ssa.Value]*Term
 	pcMemo   map[*ssa.BasicBlock]*Term
 	inprog   map[ssa.Value]bool
-	allocOrd map[*ssa.Alloc]int
-	mkOrd    map[ssa.Value]int
-	dynOrd   map[ssa.Instruction]int
-	closOrd  map[*ssa.Function]int
+	ord      *ordinals // shared with inlined callees
+	subst    map[*ssa.Parameter]*Term
+	parent   *summarizer
+	depth    int
+	inlined  map[*ssa.Call]*summarizer
 	sum      *Summary
 	nameMap  func(string) string // canonical names for callees (spec_ prefix stripping)
 }
@@ -84,8 +85,8 @@ func Summarize(p *Program, f *ssa.Function) *Summary {
 
 func newSummarizer(p *Program, f *ssa.Function) *summarizer {
 	s := &summarizer{p: p, f: f, loopOf: map[*ssa.BasicBlock]*loopInfo{}, memo: map[ssa.Value]*Term{},
-		pcMemo: map[*ssa.BasicBlock]*Term{}, inprog: map[ssa.Value]bool{}, allocOrd: map[*ssa.Alloc]int{},
-		mkOrd: map[ssa.Value]int{}, dynOrd: map[ssa.Instruction]int{}, closOrd: map[*ssa.Function]int{}}
+		pcMemo: map[*ssa.BasicBlock]*Term{}, inprog: map[ssa.Value]bool{}, inlined: map[*ssa.Call]*summarizer{},
+		ord: &ordinals{alloc: map[*ssa.Alloc]int{}, mk: map[ssa.Value]int{}, dyn: map[ssa.Instruction]int{}, dynCount: map[string]int{}, clos: map[*ssa.Function]int{}}}
 	s.sum = &Summary{Fn: f}
 	if f.Blocks == nil {
 		return s
@@ -123,46 +124,52 @@ func (s *summarizer) findLoops() {
 	}
 }
 
-// number gives position-independent ordinals to allocations, makes, dynamic calls and closures.
-func (s *summarizer) number() {
-	na, nm, nc := 0, 0, 0
-	dyn := map[string]int{}
-	for _, b := range s.f.Blocks {
-		for _, in := range b.Instrs {
-			switch x := in.(type) {
-			case *ssa.Alloc:
-				s.allocOrd[x] = na
-				na++
-			case *ssa.MakeMap:
-				s.mkOrd[x] = nm
-				nm++
-			case *ssa.MakeSlice:
-				s.mkOrd[x] = nm
-				nm++
-			case *ssa.MakeClosure:
-				if fn, ok := x.Fn.(*ssa.Function); ok {
-					if _, seen := s.closOrd[fn]; !seen {
-						s.closOrd[fn] = nc
-						nc++
-						s.sum.Closures = append(s.sum.Closures, fn)
-					}
-				}
-			case ssa.CallInstruction:
-				cm := x.Common()
-				if !cm.IsInvoke() && cm.StaticCallee() == nil {
-					if _, isB := cm.Value.(*ssa.Builtin); !isB {
-						k := cm.Value.Name()
-						if r := rootsOf(cm.Value); len(r) > 0 {
-							k = describeValue(cm.Value)
-						}
-						s.dynOrd[in] = dyn[k]
-						dyn[k]++
-					}
-				}
-			}
-		}
-	}
+// ordinals are handed out in the order in which the value graph is traversed (shared with inlined callees),
+// so that they do not depend on positions or on whether a helper was extracted.
+type ordinals struct {
+	alloc    map[*ssa.Alloc]int
+	mk       map[ssa.Value]int
+	dyn      map[ssa.Instruction]int
+	dynCount map[string]int
+	clos     map[*ssa.Function]int
+	closList []*ssa.Function
 }
+
+func (o *ordinals) allocOrd(a *ssa.Alloc) int {
+	if n, ok := o.alloc[a]; ok {
+		return n
+	}
+	o.alloc[a] = len(o.alloc)
+	return o.alloc[a]
+}
+
+func (o *ordinals) mkOrd(v ssa.Value) int {
+	if n, ok := o.mk[v]; ok {
+		return n
+	}
+	o.mk[v] = len(o.mk)
+	return o.mk[v]
+}
+
+func (o *ordinals) closOrd(fn *ssa.Function) int {
+	if n, ok := o.clos[fn]; ok {
+		return n
+	}
+	o.clos[fn] = len(o.clos)
+	o.closList = append(o.closList, fn)
+	return o.clos[fn]
+}
+
+func (o *ordinals) dynOrd(in ssa.Instruction, callee string) int {
+	if n, ok := o.dyn[in]; ok {
+		return n
+	}
+	o.dyn[in] = o.dynCount[callee]
+	o.dynCount[callee]++
+	return o.dyn[in]
+}
+
+func (s *summarizer) number() {}
 
 func (s *summarizer) note(format string, a ...interface{}) {
 	s.sum.Notes = append(s.sum.Notes, fmt.Sprintf(format, a...))
@@ -365,6 +372,11 @@ func (s *summarizer) build(v ssa.Value) *Term {
 	case *ssa.Const:
 		return constTerm(x)
 	case *ssa.Parameter:
+		if s.subst != nil {
+			if t, ok := s.subst[x]; ok {
+				return t
+			}
+		}
 		return typed(tSym(fmt.Sprintf("P%d", s.paramIndex(x))), x.Type())
 	case *ssa.FreeVar:
 		for i, fv := range s.f.FreeVars {
@@ -382,16 +394,16 @@ func (s *summarizer) build(v ssa.Value) *Term {
 	case *ssa.Alloc:
 		return s.allocTerm(x, false)
 	case *ssa.MakeMap:
-		return tSym(fmt.Sprintf("makemap#%d:%s", s.mkOrd[x], shortType(x.Type())))
+		return tSym(fmt.Sprintf("makemap#%d:%s", s.ord.mkOrd(x), shortType(x.Type())))
 	case *ssa.MakeSlice:
-		return &Term{Op: "call", Val: fmt.Sprintf("makeslice#%d:%s", s.mkOrd[x], shortType(x.Type())), Args: []*Term{s.term(x.Len), s.term(x.Cap)}}
+		return &Term{Op: "call", Val: fmt.Sprintf("makeslice#%d:%s", s.ord.mkOrd(x), shortType(x.Type())), Args: []*Term{s.term(x.Len), s.term(x.Cap)}}
 	case *ssa.MakeClosure:
 		fn, _ := x.Fn.(*ssa.Function)
 		var args []*Term
 		for _, b := range x.Bindings {
 			args = append(args, s.term(b))
 		}
-		return &Term{Op: "call", Val: fmt.Sprintf("closure#%d", s.closOrd[fn]), Args: args}
+		return &Term{Op: "call", Val: fmt.Sprintf("closure#%d", s.ord.closOrd(fn)), Args: args}
 	case *ssa.MakeInterface:
 		return s.term(x.X)
 	case *ssa.ChangeType:
@@ -573,12 +585,12 @@ func (s *summarizer) allocTerm(a *ssa.Alloc, ref bool) *Term {
 			if len(init) > 0 || escapes {
 				t := s.structFromStores(a, init, elem)
 				if t.Op == "struct" {
-					t.Val = fmt.Sprintf("%s@local#%d", t.Val, s.allocOrd[a])
+					t.Val = fmt.Sprintf("%s@local#%d", t.Val, s.ord.allocOrd(a))
 				}
 				return t
 			}
 		}
-		return tSym(fmt.Sprintf("local#%d:%s", s.allocOrd[a], shortType(elem)))
+		return tSym(fmt.Sprintf("local#%d:%s", s.ord.allocOrd(a), shortType(elem)))
 	}
 	return s.structFromStores(a, init, elem)
 }
@@ -833,13 +845,20 @@ func (s *summarizer) binop(x *ssa.BinOp) *Term {
 func (s *summarizer) phiTerm(x *ssa.Phi) *Term {
 	b := x.Block()
 	if l := s.loopOf[b]; l != nil && l.header == b {
+		if init, step, ok := s.induction(x, l); ok {
+			// induction variable: init + step * (number of completed iterations)
+			iter := &Term{Op: "sym", Val: fmt.Sprintf("L%d.I", l.id), Num: true}
+			return &Term{Op: "add", Num: true, Args: []*Term{s.term(init), {Op: "mul", Num: true, Args: []*Term{tConstInt(step), iter}}}}
+		}
 		idx := 0
 		for _, in := range b.Instrs {
 			if in == ssa.Instruction(x) {
 				break
 			}
-			if _, ok := in.(*ssa.Phi); ok {
-				idx++
+			if ph, ok := in.(*ssa.Phi); ok {
+				if _, _, ind := s.induction(ph, l); !ind {
+					idx++
+				}
 			}
 		}
 		return typed(tSym(fmt.Sprintf("L%d.v%d", l.id, idx)), x.Type())
@@ -855,6 +874,55 @@ func (s *summarizer) phiTerm(x *ssa.Phi) *Term {
 		res = tIte(c, v, res)
 	}
 	return typed(res, x.Type())
+}
+
+// induction: header phi with a single entry value and back-edge values phi +/- constant.
+func (s *summarizer) induction(x *ssa.Phi, l *loopInfo) (ssa.Value, int64, bool) {
+	if !isInteger(x.Type()) {
+		return nil, 0, false
+	}
+	var init ssa.Value
+	var step int64
+	haveStep := false
+	for i, e := range x.Edges {
+		p := x.Block().Preds[i]
+		if l.blocks[p] {
+			bin, ok := e.(*ssa.BinOp)
+			if !ok || (bin.Op != token.ADD && bin.Op != token.SUB) {
+				return nil, 0, false
+			}
+			var c *ssa.Const
+			switch {
+			case bin.X == ssa.Value(x):
+				c, _ = bin.Y.(*ssa.Const)
+			case bin.Y == ssa.Value(x) && bin.Op == token.ADD:
+				c, _ = bin.X.(*ssa.Const)
+			}
+			if c == nil {
+				return nil, 0, false
+			}
+			k, ok := constInt(c)
+			if !ok {
+				return nil, 0, false
+			}
+			if bin.Op == token.SUB {
+				k = -k
+			}
+			if haveStep && k != step {
+				return nil, 0, false
+			}
+			step, haveStep = k, true
+		} else {
+			if init != nil && init != e {
+				return nil, 0, false
+			}
+			init = e
+		}
+	}
+	if init == nil || !haveStep {
+		return nil, 0, false
+	}
+	return init, step, true
 }
 
 // edgePC: condition for reaching b through the edge p->b, relative to b's region.
@@ -900,12 +968,22 @@ func (s *summarizer) callTerm(x *ssa.Call) *Term {
 		name = "invoke:" + cm.Method.Name()
 		args = append(args, s.term(cm.Value))
 	case cm.StaticCallee() != nil:
+		if sub := s.inlineOf(x); sub != nil {
+			res := sub.inlineResults()
+			switch len(res) {
+			case 0:
+				return tSym("void")
+			case 1:
+				return res[0]
+			}
+			return &Term{Op: "tuple", Args: res}
+		}
 		name = s.calleeName(cm.StaticCallee())
 	default:
 		if b, ok := cm.Value.(*ssa.Builtin); ok {
 			name = "builtin:" + b.Name()
 		} else {
-			name = fmt.Sprintf("dyn#%d", s.dynOrd[x])
+			name = fmt.Sprintf("dyn#%d", s.ord.dynOrd(x, describeValue(cm.Value)))
 			args = append(args, s.term(cm.Value))
 		}
 	}
@@ -940,6 +1018,96 @@ func (s *summarizer) callTerm(x *ssa.Call) *Term {
 }
 
 // ---------------------------------------------------------------------------
+// inlining: a statically called, loop-free repository function that has no counterpart on the
+// other side of the comparison (no reference implementation for it, resp. no repository function
+// for a reference helper) is expanded at the call site, so that extracting, inlining or renaming
+// a helper does not change the value graph of the anchored function.
+
+const maxInlineDepth = 4
+
+func (s *summarizer) inlineOf(x *ssa.Call) *summarizer {
+	if sub, ok := s.inlined[x]; ok {
+		return sub
+	}
+	g := x.Common().StaticCallee()
+	var sub *summarizer
+	if g != nil && s.shouldInline(g) {
+		sub = newSummarizer(s.p, g)
+		sub.ord = s.ord
+		sub.parent = s
+		sub.depth = s.depth + 1
+		sub.subst = map[*ssa.Parameter]*Term{}
+		for i, prm := range g.Params {
+			if i < len(x.Common().Args) {
+				sub.subst[prm] = s.term(x.Common().Args[i])
+			}
+		}
+	}
+	s.inlined[x] = sub
+	return sub
+}
+
+func (s *summarizer) shouldInline(g *ssa.Function) bool {
+	if g.Blocks == nil || s.depth >= maxInlineDepth || len(loopHeaders(g)) > 0 {
+		return false
+	}
+	for q := s; q != nil; q = q.parent {
+		if q.f == g {
+			return false // recursion
+		}
+	}
+	switch {
+	case s.p.isSpec(g):
+		// reference helper whose repository counterpart is gone (inlined or renamed in the code)
+		if g.Parent() != nil || !strings.Contains(funcKey(g), specPrefix) {
+			return false
+		}
+		return s.p.Func(strings.Replace(funcKey(g), specPrefix, "", 1)) == nil
+	case s.p.inRepo(g):
+		if g.Parent() != nil {
+			return false
+		}
+		return !s.p.hasSpec(funcKey(g))
+	}
+	return false
+}
+
+// inlineResults: merged return terms of an inlined callee.
+func (s *summarizer) inlineResults() []*Term {
+	nres := s.f.Signature.Results().Len()
+	out := make([]*Term, nres)
+	for bi := len(s.f.Blocks) - 1; bi >= 0; bi-- {
+		b := s.f.Blocks[bi]
+		ret, ok := b.Instrs[len(b.Instrs)-1].(*ssa.Return)
+		if !ok {
+			continue
+		}
+		for i, r := range ret.Results {
+			t := s.term(r)
+			if out[i] == nil {
+				out[i] = t
+			} else {
+				out[i] = tIte(s.pc(b), t, out[i])
+			}
+		}
+	}
+	for i := range out {
+		if out[i] == nil {
+			out[i] = tSym("noreturn")
+		}
+	}
+	return out
+}
+
+// inlineEffects appends the callee's effects (guarded by the call site's guard) to the caller's list.
+func (s *summarizer) inlineEffects(region int, guard *Term, emit func(Effect)) {
+	for _, b := range s.f.Blocks {
+		g := simplifyBool(tAnd(guard, s.pc(b)))
+		s.blockEffects(b, region, g, emit, nil)
+	}
+}
+
+// ---------------------------------------------------------------------------
 // collection of results, effects and loops
 
 func (s *summarizer) regionID(b *ssa.BasicBlock) int {
@@ -947,6 +1115,46 @@ func (s *summarizer) regionID(b *ssa.BasicBlock) int {
 		return l.id
 	}
 	return -1
+}
+
+// blockEffects emits the effects of one block. onReturn (may be nil) receives function-level returns.
+func (s *summarizer) blockEffects(b *ssa.BasicBlock, region int, guard *Term, emit func(Effect), onReturn func([]*Term)) {
+	for _, in := range b.Instrs {
+		switch x := in.(type) {
+		case *ssa.Store:
+			if s.isInitStore(x) {
+				continue
+			}
+			emit(Effect{"store", region, guard, []*Term{s.addrTerm(x.Addr), s.term(x.Val)}, x.Pos()})
+		case *ssa.MapUpdate:
+			emit(Effect{"mapupdate", region, guard, []*Term{s.term(x.Map), s.term(x.Key), s.term(x.Value)}, x.Pos()})
+		case *ssa.Panic:
+			emit(Effect{"panic", region, guard, nil, x.Pos()})
+		case *ssa.Return:
+			if onReturn == nil {
+				continue // inlined callee: its results are part of the call's term
+			}
+			var vals []*Term
+			for _, r := range x.Results {
+				vals = append(vals, s.term(r))
+			}
+			if region == -1 {
+				onReturn(vals)
+			} else {
+				emit(Effect{"return", region, guard, vals, x.Pos()})
+			}
+		case *ssa.Call:
+			if sub := s.inlineOf(x); sub != nil {
+				sub.inlineEffects(region, guard, emit)
+				continue
+			}
+			if s.isEffectCall(x) {
+				emit(Effect{"call", region, guard, []*Term{s.term(x)}, x.Pos()})
+			}
+		case *ssa.Go, *ssa.Defer, *ssa.Send, *ssa.Select:
+			emit(Effect{"unk:" + fmt.Sprintf("%T", in), region, guard, nil, in.Pos()})
+		}
+	}
 }
 
 func (s *summarizer) collect() {
@@ -957,44 +1165,16 @@ func (s *summarizer) collect() {
 		vals  []*Term
 	}
 	var rets []retCase
+	emit := func(e Effect) { s.sum.Effects = append(s.sum.Effects, e) }
 	for _, b := range f.Blocks {
 		region := s.regionID(b)
 		guard := s.pc(b)
 		if l := s.loopOf[b]; l != nil && l.header == b {
 			guard = tTrue() // effects in a header block happen on every iteration
 		}
-		for _, in := range b.Instrs {
-			switch x := in.(type) {
-			case *ssa.Store:
-				if s.isInitStore(x) {
-					continue
-				}
-				s.sum.Effects = append(s.sum.Effects, Effect{"store", region, guard, []*Term{s.addrTerm(x.Addr), s.term(x.Val)}, x.Pos()})
-			case *ssa.MapUpdate:
-				s.sum.Effects = append(s.sum.Effects, Effect{"mapupdate", region, guard, []*Term{s.term(x.Map), s.term(x.Key), s.term(x.Value)}, x.Pos()})
-			case *ssa.Panic:
-				s.sum.Effects = append(s.sum.Effects, Effect{"panic", region, guard, nil, x.Pos()})
-			case *ssa.Return:
-				var vals []*Term
-				for _, r := range x.Results {
-					vals = append(vals, s.term(r))
-				}
-				if region == -1 {
-					rets = append(rets, retCase{guard, vals})
-				} else {
-					s.sum.Effects = append(s.sum.Effects, Effect{"return", region, guard, vals, x.Pos()})
-				}
-			case *ssa.Call:
-				if s.isEffectCall(x) {
-					s.sum.Effects = append(s.sum.Effects, Effect{"call", region, guard, []*Term{s.term(x)}, x.Pos()})
-				}
-			case *ssa.Go, *ssa.Defer, *ssa.Send, *ssa.Select, *ssa.RunDefers:
-				if _, ok := in.(*ssa.RunDefers); ok {
-					continue
-				}
-				s.sum.Effects = append(s.sum.Effects, Effect{"unk:" + fmt.Sprintf("%T", in), region, guard, nil, in.Pos()})
-			}
-		}
+		s.blockEffects(b, region, guard, emit, func(vals []*Term) {
+			rets = append(rets, retCase{guard, vals})
+		})
 	}
 	for i := 0; i < nres; i++ {
 		var res *Term
@@ -1032,6 +1212,9 @@ func (s *summarizer) collect() {
 					ls.Over = s.term(r.X)
 				}
 			case *ssa.Phi:
+				if _, _, ok := s.induction(x, l); ok {
+					continue
+				}
 				lv := LoopVar{Name: x.Comment}
 				var init, step *Term
 				for i, e := range x.Edges {
@@ -1073,6 +1256,7 @@ func (s *summarizer) collect() {
 		// exits of nested loops that leave this loop as well are attributed to the nested loop's blocks (loopOf != l): covered there
 		s.sum.Loops = append(s.sum.Loops, ls)
 	}
+	s.sum.Closures = append([]*ssa.Function{}, s.ord.closList...)
 }
 
 func (s *summarizer) backEdgePC(p *ssa.BasicBlock, l *loopInfo) *Term {
